@@ -12,8 +12,20 @@ pub fn block_on_paused<F: Future>(f: F) -> F::Output {
         .block_on(f)
 }
 
+thread_local! {
+    static REAL_CLOCK_USED: std::cell::Cell<bool> = const { std::cell::Cell::new(false) };
+}
+
+/// Did the current thread run a case on the real clock since the last call? (resets the flag)
+/// The engine re-executes a failing real-clock case before it believes the failure: wall-clock
+/// waits are the one ingredient of such a case that the scheduler of a loaded machine can change.
+pub fn take_real_clock_used() -> bool {
+    REAL_CLOCK_USED.with(|c| c.replace(false))
+}
+
 /// Run a future on a fresh current-thread runtime with the real clock.
 pub fn block_on_real<F: Future>(f: F) -> F::Output {
+    REAL_CLOCK_USED.with(|c| c.set(true));
     tokio::runtime::Builder::new_current_thread()
         .enable_all()
         .build()
